@@ -59,7 +59,10 @@ def build(o, vseed=0):
               'denom': d.get('denom', []), 'mask': d.get('mask', 'F'), 'units': d.get('units')}
         if dd['cls'] == 'Boolean':
             dd['cls'] = 'Scalar'
-        obj.insert_deriv(key, build(dd, vseed + 11 + k))
+        dv = build(dd, vseed + 11 + k)
+        if d.get('ro'):
+            dv = dv.as_readonly()            # a read-only derivative inside a (possibly writable) object
+        obj.insert_deriv(key, dv)
     if o.get('ro'):
         obj = obj.as_readonly()
     return obj
@@ -94,6 +97,7 @@ def build_index(ix, vseed=2):
     """index descriptors: list of entries  int | ['s',a,b,c] | 'e' (Ellipsis) | 'n' (None) | ['a', [ints]] (int array)
        | ['b',[bools]] | ['f'] float | ['q', ints, maskbits] (Scalar index with mask) | 'T' | 'F' | ['bad']"""
     out = []
+    force_tuple = False
     for e in ix:
         if isinstance(e, bool):
             out.append(e)
@@ -119,11 +123,16 @@ def build_index(ix, vseed=2):
             out.append(Scalar(np.array(e[1], dtype='int64'), np.array(e[2], dtype=bool)))
         elif e[0] == 'bad':
             out.append('abc')
-        elif e[0] == 'rag':
-            out.append([[0, 1], [0]])          # ragged list: np.array() fails INSIDE _prep_index (ValueError)
+        elif e[0] == 'inner':
+            # entries whose preparation fails INSIDE _prep_index with a class other than IndexError (ValueError from
+            # Qube()/np.array()/broadcasted_shape); only the try/except wrapper turns them into IndexError
+            out.append({'rag': [[0, 1], [0, 1, 2]], 'nonel': [None, 0], 'strl': ['a', 'b'],
+                        'objarr': np.array([None, 1], dtype=object), 'nest': (0, (1, 2)),
+                        'strarr': np.array(['a'])}[e[1]])
+            force_tuple = True
         else:
             raise KeyError(e)
-    return tuple(out) if len(out) != 1 or ix[0] in ('e', 'n') else out[0]
+    return tuple(out) if force_tuple or len(out) != 1 or ix[0] in ('e', 'n') else out[0]
 
 
 # --------------------------------------------------------------------------- snapshots
